@@ -109,7 +109,7 @@ def run(ctx, F):
     rows = ret_table(tam)
     falses = [(b, t, g) for b, t, g in rows if const_arg(t) is False]
     trues = [(b, t, g) for b, t, g in rows if const_arg(t) is True]
-    okf = len(falses) == 1 and any(re.search(r"BitAnd .*\) Eq arg3\)$|Eq arg3\)$", show(p.tree)) and p.val is True for p in falses[0][2]) and not any("compare_exchange" in show(p.tree) for p in falses[0][2])
+    okf = len(falses) == 1 and any((re.search(r" Eq arg3\)$|^\(arg3 Eq ", show(p.tree)) and p.val is True) or (re.search(r" Ne arg3\)$|^\(arg3 Ne ", show(p.tree)) and p.val is False) for p in falses[0][2]) and not any("compare_exchange" in show(p.tree) for p in falses[0][2])
     ctx.judge(okf, "C36.copy-once", "test_and_mark reports 'already marked' only when the loaded mark equals the wanted value", expected="return false iff (old & mask) == value; never because the CAS failed",
               found=str([[(show(p.tree)[-50:], p.val) for p in g] for b, t, g in falses])[:300], where=where(tam), key="C36.copy-once|false")
     okt = len(trues) >= 1 and all(any("compare_exchange" in show(p.tree) and p.val in ("Ok", True) for p in g) for b, t, g in trues)
